@@ -83,6 +83,7 @@ func main() {
 	reportFile := flag.String("report", "", "report file")
 	goBin := flag.String("go", "go1.26.8", "go binary")
 	net := flag.Bool("net", true, "apply network import substitutions (needs zzverif/simgrpc)")
+	overlay := flag.String("overlay", "", "directory tree of extra files copied into the root after the rewrite (exports of the re-packaged main packages)")
 	flag.Parse()
 	if *root == "" {
 		fatal("need -root")
@@ -121,12 +122,42 @@ func main() {
 		}
 		instrumentPkg(fset, imp, p)
 	}
+	if *overlay != "" {
+		copyOverlay(*overlay, *root)
+	}
 	sort.Strings(rep.Uncontrolled)
 	sort.Strings(rep.Packages)
 	if *reportFile != "" {
 		b, _ := json.MarshalIndent(rep, "", " ")
 		os.WriteFile(*reportFile, b, 0o644)
 	}
+}
+
+// mainPkgs are the package main directories that are re-packaged as
+// importable packages so that the shipped glue code (flag handling, request
+// construction, the collector's Update closure) runs inside the simulation.
+var mainPkgs = map[string]string{
+	modPath + "/cmd/gnmi_collector": "gnmi_collector",
+	modPath + "/cmd/gnmi_cli":       "gnmi_cli",
+}
+
+func copyOverlay(from, to string) {
+	filepath.Walk(from, func(p string, fi os.FileInfo, err error) error {
+		if err != nil || fi.IsDir() {
+			return nil
+		}
+		rel, _ := filepath.Rel(from, p)
+		dst := filepath.Join(to, rel)
+		os.MkdirAll(filepath.Dir(dst), 0o755)
+		b, err := os.ReadFile(p)
+		if err != nil {
+			fatal("overlay: %v", err)
+		}
+		if err := os.WriteFile(dst, b, 0o644); err != nil {
+			fatal("overlay: %v", err)
+		}
+		return nil
+	})
 }
 
 func fatal(f string, a ...any) {
@@ -138,7 +169,7 @@ func goList(root, goBin string) []*listPkg {
 	// The simulator and harness packages (zzverif/...) are written against
 	// the instrumented code and do not compile before the rewrite: list the
 	// repository's own packages only.
-	lc := exec.Command(goBin, "list", "./...")
+	lc := exec.Command(goBin, "list", "-e", "./...")
 	lc.Dir = root
 	lc.Stderr = os.Stderr
 	lo, err := lc.Output()
@@ -282,6 +313,15 @@ func (fc *fileCtx) inlineable(e ast.Expr) bool {
 }
 
 func (fc *fileCtx) rewrite() {
+	if name, ok := mainPkgs[fc.pkg.ImportPath]; ok && fc.file.Name.Name == "main" {
+		fc.file.Name = ast.NewIdent(name)
+		for _, d := range fc.file.Decls {
+			if fd, ok := d.(*ast.FuncDecl); ok && fd.Recv == nil && fd.Name.Name == "main" {
+				fd.Name = ast.NewIdent("VerifMain")
+			}
+		}
+		count("main-repackaged")
+	}
 	// Import substitutions.
 	subst := map[string]string{}
 	for k, v := range globalSubst {
